@@ -179,7 +179,7 @@ static void runOne(int geom, int prob, int alpha, int beta, double Rmax, double 
     double ajump = 0.6 * Rmax;
     Problem p;
     try {
-        p = Problem::select(geom, prob, alpha, beta, Rmax, kappa, delta, ajump);
+        p = Problem::select(geom, prob, alpha, beta, Rmax, kappa, delta, ajump, false); // formulas are judged here, not the library's calls
     }
     catch (const std::exception& e) {
         printf("SKIP geom=%d prob=%d alpha=%d beta=%d what=%s\n", geom, prob, alpha, beta, e.what());
